@@ -21,20 +21,24 @@ Tables == {S \in (SubsetsUpTo(ValidIdx \cap (1..GenEnumN), GenMaxTab) \ {{}}) \c
 VARIABLES tab, done
 TableOf(S) == LET ids == SetToSortSeq(S, <) IN [i \in DOMAIN ids |-> [toks |-> PToks[ids[i]], pi |-> ids[i]]]
 
-Agree(S, p) ==
+\* path-only tables ignore the host: one host is enough for them
+TableHasHost(S) == \E i \in S : GenPool[i][1] # "/"
+HostsFor(S) == IF TableHasHost(S) THEN DOMAIN GenHosts ELSE {1}
+
+Agree(S, h, p) ==
   LET T == TableOf(S)
-      want == Lookup(T, <<>>, p)
+      want == Lookup(T, h, p)
       tree == Canonical({GenPool[i] : i \in S})
-      got == Selected(LookupTree(tree, p))
+      got == Selected(LookupRoot(tree, StripHostPort(h), p))
   IN IF want.ok THEN got.ok /\ got.route = GenPool[T[want.id].pi] /\ got.tsr = want.tsr /\ got.b = want.b
      ELSE ~got.ok
 
 \* (an IF, not a disjunction: inside an action TLC explores both disjuncts)
-Check(S) == \A k \in DOMAIN GenPaths :
-              IF Agree(S, GenPaths[k]) THEN TRUE
-              ELSE Assert(FALSE, <<"walk and reference disagree", {GenPool[i] : i \in S}, GenPaths[k],
-                                   Lookup(TableOf(S), <<>>, GenPaths[k]),
-                                   Selected(LookupTree(Canonical({GenPool[i] : i \in S}), GenPaths[k]))>>)
+Check(S) == \A hi \in HostsFor(S), k \in DOMAIN GenPaths :
+              IF Agree(S, GenHosts[hi], GenPaths[k]) THEN TRUE
+              ELSE Assert(FALSE, <<"walk and reference disagree", {GenPool[i] : i \in S}, GenHosts[hi], GenPaths[k],
+                                   Lookup(TableOf(S), GenHosts[hi], GenPaths[k]),
+                                   Selected(LookupRoot(Canonical({GenPool[i] : i \in S}), StripHostPort(GenHosts[hi]), GenPaths[k]))>>)
 
 Init == tab \in Tables /\ done = FALSE
 Next == ~done /\ Check(tab) /\ done' = TRUE /\ UNCHANGED tab
